@@ -73,7 +73,10 @@ def check(ID, n, checks):
         rc, out = sh('git -C /repo apply %s/patch%s.diff' % (O, n))
         assert rc == 0, out
         env = dict(VERIF_MUTANT='1')
-        undo = lambda: sh('git -C /repo checkout -- .')
+        def undo():
+            sh('git -C /repo checkout -- .')
+            # the translators wrote the MUTATED source into lean/CompmechVerif/Gen (tracked files): regenerate from the clean tree
+            sh('/venv/bin/python -m tools.translate.gen_all', cwd=VERIF)
     try:
         for c in checks:
             t0 = time.time()
